@@ -182,7 +182,7 @@ func c06Ref(input string, useNumber bool) (map[string]interface{}, bool, bool) {
 	case []interface{}:
 		// textual wrapping is documented; an array followed by further non-blank bytes is an open corner
 		rest := input[dec.InputOffset():]
-		amb := strings.TrimSpace(rest) != ""
+		amb := strings.Trim(rest, " \t\r\n") != "" // JSON white space only
 		return map[string]interface{}{"object": t}, true, amb
 	case nil:
 		return nil, true, false // top-level null: nil or empty Map accepted
@@ -252,13 +252,13 @@ func c06Decode(c *Ctx, input string, useNumber bool) (nontrivial bool) {
 func c06Run(c *Ctx) {
 	mustBeDefault(c)
 	bsu := "\\" + "u003c" // the six-character text backslash-u-0-0-3-c, as data
-	c.S.Rule = "encode side: (a) every Map template with <= N nodes over keys {a, k} with leaves {\"s\", \"<&>\", 1.5, true, null} and (b) the structures {k:s}, {s:v}, {k:[s,{j:s}]} for every word s of <= 3 tokens over {<, >, &, backslash, quote, the six-character texts \\u003c \\u003e \\u0026 as data, u003c, U+0001, newline, a, e-acute, U+2028}; encoders Json, JsonIndent (3 prefix/indent pairs), Copy, j2x.MapToJson, default and safe encoding; oracle: valid JSON, NewMapJson(out) deep-equals the original, default mode shows every <,>,& of the data literally, safe mode shows none and is byte-identical to encoding/json; returned bytes retained and re-checked after later calls. decode side: every byte string of <= K tokens over {{, }, [, ], \"a\", :, comma, 1, 1.0, null, true, space, x} with JsonUseNumber off and on; oracle: NewMapJson accepts exactly when encoding/json's Decoder decodes the first value as an object (or array, wrapped under \"object\") and returns the same value; number text survives with JsonUseNumber. non-trivial = data with <,>,& (encode) / accepted non-empty value (decode)."
+	c.S.Rule = "encode side: (a) every Map template with <= N nodes over keys {a, k} with leaves {\"s\", \"<&>\", 1.5, true, null} and (b) the structures {k:s}, {s:v}, {k:[s,{j:s}]} for every word s of <= 3 tokens over {<, >, &, backslash, quote, the six-character texts \\u003c \\u003e \\u0026 \\u2028 \\u2029 as data, u003c, U+0001, newline, a, e-acute, U+2028}; encoders Json, JsonIndent (4 prefix/indent pairs incl. both empty), Copy, j2x.MapToJson, default and safe encoding; oracle: valid JSON, NewMapJson(out) deep-equals the original, default mode shows every <,>,& of the data literally, safe mode shows none and is byte-identical to encoding/json; returned bytes retained and re-checked after later calls. decode side: every byte string of <= K tokens over {{, }, [, ], \"a\", :, comma, 1, 1.0, null, true, space, x, form feed, U+00A0} with JsonUseNumber off and on; oracle: NewMapJson accepts exactly when encoding/json's Decoder decodes the first value as an object (or array, wrapped under \"object\") and returns the same value; number text survives with JsonUseNumber. non-trivial = data with <,>,& (encode) / accepted non-empty value (decode)."
 	c.S.Assumptions = []string{"top-level null: nil or empty Map accepted", "an array followed by further non-blank bytes: accept (wrapped) and reject both accepted (textual wrapping is what the documentation describes)"}
 	n, k := 4, 5
 	if c.Thorough {
 		n, k = 5, 6
 	}
-	indents := [][2]string{{"", "  "}, {"", "\t"}, {" ", " "}}
+	indents := [][2]string{{"", "  "}, {"", "\t"}, {" ", " "}, {"", ""}}
 	encOne := func(mk func() map[string]interface{}) {
 		type e struct {
 			enc            string
@@ -291,7 +291,7 @@ func c06Run(c *Ctx) {
 	g.rootMaps(n, func(t *T) {
 		encOne(func() map[string]interface{} { return inst(t, nil).(map[string]interface{}) })
 	})
-	alpha := []string{"<", ">", "&", "\\", "\"", bsu, "\\" + "u003e", "\\" + "u0026", "u003c", "\x01", "\n", "a", "é", " "}
+	alpha := []string{"<", ">", "&", "\\", "\"", bsu, "\\" + "u003e", "\\" + "u0026", "u003c", "\x01", "\n", "a", "é", " ", "\\" + "u2028", "\\" + "u2029"}
 	seqs(alpha, 3, func(w []string) {
 		s := strings.Join(w, "")
 		encOne(func() map[string]interface{} { return map[string]interface{}{"k": s} })
@@ -301,7 +301,7 @@ func c06Run(c *Ctx) {
 		})
 	})
 	// decode side
-	toks := []string{"{", "}", "[", "]", `"a"`, ":", ",", "1", "1.0", "null", "true", " ", "x"}
+	toks := []string{"{", "}", "[", "]", `"a"`, ":", ",", "1", "1.0", "null", "true", " ", "x", "\f", "\u00a0"}
 	seqs(toks, k, func(w []string) {
 		if !c.Mine() {
 			return
